@@ -531,6 +531,11 @@ func (e *Env) evalCall(n *ECall) Val {
 		return b(fmt.Sprintf("(= (i_tag %s) %d)", v.Term, e.x.C.typeID(e.x.httpErrPtrType())))
 	case "davErr":
 		return b(fmt.Sprintf("(not (= (asDavErr %s) 0))", arg(0).Term))
+	case "asPathErr":
+		t, _ := e.x.resolveType("webdav", "*fs.PathError")
+		return Val{T: t, Term: fmt.Sprintf("(asPathErr %s)", arg(0).Term)}
+	case "osIsExist", "osIsNotExist":
+		return b(fmt.Sprintf("(%s %s)", n.Fun, arg(0).Term))
 	case "isNotExist", "isExist", "isPerm", "isDeadline", "hostPath":
 		return b(fmt.Sprintf("(%s %s)", n.Fun, arg(0).Term))
 	case "errText":
